@@ -8,7 +8,7 @@
 From Coq Require Import List String Ascii NArith ZArith Bool.
 Import ListNotations.
 From Solstat Require Import Lift Pt Walk Res Nodes Utils Detectors Opt_pack Cases DetCases LineSpec
-     Compose Compose1 Compose2 ComposeAll.
+     Compose Compose1 Compose2 ComposeAll ComposeLocal.
 
 (* every detector of the property: a construct is flagged in the file iff it is flagged in one of the
    files obtained by keeping the pragmas and a single item; no panic is introduced by isolating *)
@@ -32,6 +32,57 @@ Proof.
   intros d Hd. apply compose_lines_lemma. exact (proj1 (Forall_forall _ _) compose_all_lemma d Hd).
 Qed.
 Print Assumptions compose_lines.
+
+(* "No item influences the verdict on another item": what a detector flags for an item on its own depends only
+   on the file's pragma directives (as an ordered list) and on that item - not on the other items of the
+   file, nor on where the item stands.  No hypothesis on names or locations. *)
+Theorem item_verdict_local :
+  Forall (fun d => forall parts parts' k k' p,
+            filter sp_is_pragma parts = filter sp_is_pragma parts' -> sp_is_pragma p = false ->
+            nth_error parts k = Some p -> nth_error parts' k' = Some p ->
+            forall locs, d (isolate parts k) = Ok locs ->
+            exists locs', d (isolate parts' k') = Ok locs' /\ forall l, In l locs <-> In l locs')
+         c19_detectors.
+Proof. exact item_local_all. Qed.
+Print Assumptions item_verdict_local.
+
+(* a finding of the whole file is a finding of exactly the isolated items *)
+Theorem whole_file_findings_are_item_findings : forall d, In d c19_detectors ->
+  forall parts, item_indices parts <> [] -> no_cross_mentions parts -> incdec_locs_separate parts ->
+  forall locs, d (Mk_SourceUnit parts) = Ok locs ->
+  forall l, In l locs <->
+            exists j q lj, nth_error parts j = Some q /\ sp_is_pragma q = false /\
+                           d (isolate parts j) = Ok lj /\ In l lj.
+Proof. exact whole_file_findings_by_item. Qed.
+Print Assumptions whole_file_findings_are_item_findings.
+
+(* "adding, removing or reordering unrelated items never adds or removes a finding inside an item": two files
+   with the same pragmas that share an item p (anywhere) and satisfy the hypotheses agree on the findings of p *)
+Theorem unrelated_items_never_matter : forall d, In d c19_detectors ->
+  forall parts parts' k k' p, filter sp_is_pragma parts = filter sp_is_pragma parts' -> sp_is_pragma p = false ->
+  nth_error parts k = Some p -> nth_error parts' k' = Some p ->
+  no_cross_mentions parts -> incdec_locs_separate parts ->
+  no_cross_mentions parts' -> incdec_locs_separate parts' ->
+  forall locs locs', d (Mk_SourceUnit parts) = Ok locs -> d (Mk_SourceUnit parts') = Ok locs' ->
+  exists lk lk', d (isolate parts k) = Ok lk /\ d (isolate parts' k') = Ok lk' /\
+                 (forall l, In l lk <-> In l lk') /\
+                 (forall l, In l lk -> In l locs /\ In l locs').
+Proof. exact shared_item_same_findings. Qed.
+Print Assumptions unrelated_items_never_matter.
+
+(* non-vacuity: the example file with item B removed and the other two items swapped *)
+Example reordered_file_example :
+  filter sp_is_pragma ex_parts = filter sp_is_pragma ex_parts' /\
+  nth_error ex_parts 1 = nth_error ex_parts' 2 /\
+  option_map sp_is_pragma (nth_error ex_parts 1) = Some false /\
+  no_cross_mentions_b ex_parts' = true /\ incdec_locs_separate_b ex_parts' = true /\
+  solidity_math_optimization (isolate ex_parts 1) = Ok [L 71 76] /\
+  solidity_math_optimization (isolate ex_parts' 2) = Ok [L 71 76] /\
+  solidity_math_optimization (Mk_SourceUnit ex_parts') = Ok [L 213 218; L 71 76] /\
+  sstore_optimization (isolate ex_parts 1) = Ok [L 67 76] /\
+  sstore_optimization (Mk_SourceUnit ex_parts') = Ok [L 67 76].
+Proof. exact ex_parts'_ok. Qed.
+Print Assumptions reordered_file_example.
 
 (* 28 detectors: all 30 except the two SafeMath ones *)
 Theorem c19_detectors_count : List.length c19_detectors = 28%nat.
